@@ -143,12 +143,14 @@ Section Perm.
 
   Lemma raw_perm_spec P : rp_sbox P = exp7 M64 -> rp_inv_sbox P = inv_sbox64 M64 -> rp_mds P = mds -> rp_ark1 P = ark1 -> rp_ark2 P = ark2 ->
     forall ws vs, length ws = n -> RL ws vs ->
-    RL (fold_left (raw_round mdsf ark1 ark2) (seq 0 7) ws) (apply_permutation M64 P vs).
+    RL (fold_left (raw_round mdsf ark1 ark2) (seq 0 7) ws) (apply_permutation M64 P vs) /\
+    length (fold_left (raw_round mdsf ark1 ark2) (seq 0 7) ws) = n.
   Proof.
     intros E1 E2 E3 E4 E5. unfold apply_permutation.
     assert (G : forall l, Forall (fun r => (r < 7)%nat) l -> forall ws vs, length ws = n -> RL ws vs ->
-                RL (fold_left (raw_round mdsf ark1 ark2) l ws) (fold_left (apply_round M64 P) l vs)).
-    { induction l as [|r l IH]; intros Hl ws vs Hn H; [exact H|].
+                RL (fold_left (raw_round mdsf ark1 ark2) l ws) (fold_left (apply_round M64 P) l vs) /\
+                length (fold_left (raw_round mdsf ark1 ark2) l ws) = n).
+    { induction l as [|r l IH]; intros Hl ws vs Hn H; [split; assumption|].
       inversion Hl as [|r' l' Hr7 Hl' Eq]. cbn [fold_left].
       destruct (raw_round_spec P ws vs r) as (S & N); auto. }
     apply G. apply Forall_forall. intros r Hr. apply in_seq in Hr. lia.
@@ -167,34 +169,39 @@ Proof.
   apply Z.leb_le in A. apply Z.ltb_lt in B. lia.
 Qed.
 
+Lemma rp64_raw_permutation_RL : forall ws vs, length ws = 12%nat -> RL ws vs ->
+  RL (rp64_raw_permutation ws) (rp64_permutation vs) /\ length (rp64_raw_permutation ws) = 12%nat.
+Proof.
+  intros ws vs Hl H. unfold rp64_raw_permutation, rp64_permutation.
+  apply (raw_perm_spec 12 mds12_multiply rp64_MDS rp64_ARK1 rp64_ARK2); try reflexivity; auto.
+  - intros st L W. apply (mds12_multiply_list st L W).
+  - apply ark_rows_ok. apply tables_wellformed.
+  - apply ark_rows_ok. apply tables_wellformed.
+Qed.
+Lemma jive_raw_permutation_RL : forall ws vs, length ws = 8%nat -> RL ws vs ->
+  RL (jive_raw_permutation ws) (jive_permutation vs) /\ length (jive_raw_permutation ws) = 8%nat.
+Proof.
+  intros ws vs Hl H. unfold jive_raw_permutation, jive_permutation.
+  apply (raw_perm_spec 8 mds8_multiply jive_MDS jive_ARK1 jive_ARK2); try reflexivity; auto.
+  - intros st L W. apply (mds8_multiply_list st L W).
+  - apply ark_rows_ok. apply tables_wellformed.
+  - apply ark_rows_ok. apply tables_wellformed.
+Qed.
+
 (* permutation_spec, raw level: for every state of canonical internal words, the implementation-level permutation
    (generated f64 arithmetic, frequency-domain MDS) returns canonical words whose residues are the value-level
    (textbook, see permutation_spec_rp64) permutation of the input residues *)
 Theorem rp64_raw_permutation_spec : forall ws, length ws = 12%nat -> Forall repr ws ->
   Forall repr (rp64_raw_permutation ws) /\ map val (rp64_raw_permutation ws) = rp64_permutation (map val ws).
 Proof.
-  intros ws Hl Hr.
-  assert (H : RL (rp64_raw_permutation ws) (rp64_permutation (map val ws))).
-  { unfold rp64_raw_permutation, rp64_permutation.
-    apply (raw_perm_spec 12 mds12_multiply rp64_MDS rp64_ARK1 rp64_ARK2); try reflexivity; auto.
-    - intros st L W. apply (mds12_multiply_list st L W).
-    - apply ark_rows_ok. apply tables_wellformed.
-    - apply ark_rows_ok. apply tables_wellformed.
-    - apply RL_intro. exact Hr. }
+  intros ws Hl Hr. destruct (rp64_raw_permutation_RL ws (map val ws) Hl (RL_intro ws Hr)) as (H & _).
   split; [eapply RL_repr; exact H | eapply RL_val; exact H].
 Qed.
 
 Theorem jive_raw_permutation_spec : forall ws, length ws = 8%nat -> Forall repr ws ->
   Forall repr (jive_raw_permutation ws) /\ map val (jive_raw_permutation ws) = jive_permutation (map val ws).
 Proof.
-  intros ws Hl Hr.
-  assert (H : RL (jive_raw_permutation ws) (jive_permutation (map val ws))).
-  { unfold jive_raw_permutation, jive_permutation.
-    apply (raw_perm_spec 8 mds8_multiply jive_MDS jive_ARK1 jive_ARK2); try reflexivity; auto.
-    - intros st L W. apply (mds8_multiply_list st L W).
-    - apply ark_rows_ok. apply tables_wellformed.
-    - apply ark_rows_ok. apply tables_wellformed.
-    - apply RL_intro. exact Hr. }
+  intros ws Hl Hr. destruct (jive_raw_permutation_RL ws (map val ws) Hl (RL_intro ws Hr)) as (H & _).
   split; [eapply RL_repr; exact H | eapply RL_val; exact H].
 Qed.
 
